@@ -102,6 +102,10 @@ def stepCodec (p : CodecProg) (toks : List String) : CodecProg × String :=
       | some pre, some m, some pk, some sg, some memo, some ent, some fee =>
         "ok " ++ hx (encodeStdTx pre { msg := m, fee := fee, pk := pk, sig := sg, memo := memo, entropy := ent })
       | _, _, _, _, _, _, _ => "bad-op")
+  | "aacct" :: pre :: a :: pk :: coins =>
+    (p, match unhex pre, unhex a, unhex pk, coins.mapM parseCoinTok with
+      | some pre, some a, some pk, some cs => "ok " ++ hx (encodeAccount pre { addr := a, coins := cs, pk := pk })
+      | _, _, _, _ => "bad-op")
   | "amsg2" :: _ :: pre :: toks => (p, match unhex pre, toks.mapM parseFldTok with   -- a registered message with a key or a nested plan
     | some pre, some fs => "ok " ++ hx (pre ++ encodeStruct 1 fs)
     | _, _ => "bad-op")
